@@ -130,7 +130,7 @@ impl Attribution {
 
 pub fn run(ctx: &mut Ctx) {
     let (cases, bound) = cases_for(ctx);
-    ctx.rule = "programs = all derivations of the reference grammar (expr operand/call, statements, nesting, TYPE forms, VAR blocks, located/access variables, POUs, configuration, SFC) with at most `deviation_bound` costly deviations from the simplest member of each production group (cost-0 choices such as host kind, slot and class are always fully expanded), plus complete tables: all 16x16 operator pairs, all same-level triples, mixed-level triples, all bracketings of 3 and 4 operands, unary placements; distinct = distinct program text".into();
+    ctx.rule = "programs = all derivations of the reference grammar (expr operand/call, statements, nesting, TYPE forms, VAR blocks, located/access variables, POUs, configuration, SFC) with at most `deviation_bound` costly deviations from the simplest member of each production group (cost-0 choices such as host kind, slot and class are always fully expanded), plus complete tables: all 16x16 operator pairs, all same-level triples, mixed-level triples, all bracketings of 3 and 4 operands, unary placements; plus the cardinality family: 30 list productions x 24 sizes from 1 to 1000 (around 8, 16, 32, 64, 128, 256), every element marked; distinct = distinct program text".into();
     ctx.bounds.insert("deviation_bound".into(), json!(bound));
     ctx.assumptions.push("the expected tree is emitted by the generator from IEC 61131-3 Annex B (precedence table typed in from B.3.1), never by calling the parser; π erases DSL representation choices only (listed in DESIGN.md section 5)".into());
     ctx.assumptions.push("canonical 'tight' spelling: one blank between lexemes except at conventional tight positions; layout tolerance is C08's subject".into());
@@ -162,6 +162,34 @@ pub fn run(ctx: &mut Ctx) {
             ctx.sample(json!({"case": c.id(), "text": crate::util::short(&text, 200), "expected_tree": crate::util::short(&c.nt.brief(), 300)}));
         }
     }
+    // cardinality family: every list production with N elements (markers must all be carried, once, in order)
+    let cards = gram::card::cases();
+    let card_res: Vec<Option<(String, String)>> = cards
+        .par_iter()
+        .map(|c| match crate::util::catch(|| front::parse(&c.text, "card.st")) {
+            Err(p) => Some((format!("panic@{}", p.loc), format!("the parser panicked at {}", p.loc))),
+            Ok(Err(d)) => Some((format!("rejected({})", d.code), format!("rejected with {} at {}..{}", d.code, d.primary.location.start, d.primary.location.end))),
+            Ok(Ok(lib)) => gram::card::judge(c, &nt::library(&lib)),
+        })
+        .collect();
+    let mut card_sizes_ok: BTreeMap<&str, Vec<usize>> = BTreeMap::new();
+    for (c, r) in cards.iter().zip(card_res.iter()) {
+        ctx.evaluations += 1;
+        ctx.transitions += 1;
+        ctx.distinct(&c.text);
+        match r {
+            None => {
+                ctx.outcome("cardinality: every element carried once and in order");
+                card_sizes_ok.entry(c.production).or_default().push(c.n);
+            }
+            Some((sym, what)) => {
+                ctx.outcome("cardinality: failed");
+                ctx.fail(&format!("cardinality/{}#{}", c.production, sym), &format!("{} with {} elements: {} :: {}", c.production, c.n, what, crate::util::short(&c.text, 120)), json!({"mode":"cardinality","production": c.production, "n": c.n}));
+            }
+        }
+    }
+    ctx.bounds.insert("cardinality_sizes".into(), json!(gram::card::SIZES));
+    ctx.extra.insert("cardinality_sizes_passing".into(), json!(card_sizes_ok.iter().map(|(k, v)| (k.to_string(), json!(v.len()))).collect::<serde_json::Map<String, Value>>()));
     ctx.states = ctx.evaluations;
     ctx.traces = ctx.evaluations;
     ctx.extra.insert(
@@ -171,6 +199,17 @@ pub fn run(ctx: &mut Ctx) {
 }
 
 pub fn replay(case: &Value) -> Result<String, String> {
+    if case["mode"] == json!("cardinality") {
+        let (prod, n) = (case["production"].as_str().ok_or("production")?, case["n"].as_u64().ok_or("n")? as usize);
+        let c = gram::card::cases().into_iter().find(|c| c.production == prod && c.n == n).ok_or("unknown cardinality case")?;
+        return match front::parse(&c.text, "card.st") {
+            Err(d) => Err(format!("rejected with {}", d.code)),
+            Ok(lib) => match gram::card::judge(&c, &nt::library(&lib)) {
+                None => Ok("every element carried once and in order".into()),
+                Some((s, w)) => Err(format!("{}: {}", s, w)),
+            },
+        };
+    }
     let id = case["case"].as_str().ok_or("case")?;
     let c = &gram::find_case(id).ok_or("case id is not in the enumerated space any more")?;
     let j = judge(c);
